@@ -325,6 +325,9 @@ def gen_schema(d, *, max_types=8, rich_names=True, defaults=0.3, custom_scalars=
     in_leaf = BUILTIN_SCALARS + list(desc.enums) + desc.scalars * scalar_weight
     # inputs: names first (recursion / forward refs), then fields
     input_names = [take() + "Input" for _ in range(n_input)]
+    if input_names and d.bool(0.12):
+        input_names[0] = "_" + input_names[0]  # GraphQL reserves only "__": a single leading underscore is a user's name
+        d.tag("schema.underscore_type_name")
     if len(input_names) >= 2 and d.bool(0.3):
         input_names[-1] = input_names[0] + d.choice(["Ext", "V2", "Patch"])
         d.tag("schema.name_contains_name")
